@@ -2,6 +2,9 @@ CLAIM = True
 from props.common import conc
 
 
+EX = {'stub_map': {'malloc': 'my_malloc', 'free': 'my_free'}}
+
+
 def obligations(tier):
     q = tier == 'quick'
     R = 3 if q else 4
@@ -9,21 +12,21 @@ def obligations(tier):
     obs += conc('lfq_3threads', 'c12_lfq.c', ['t1', 't2', 't3'], R, cflags=['-DSCEN=1'], unwind=3,
                 desc='rculfqueue: 3 threads, 3 enqueues / 3 dequeues (Michael-Scott helping + dummy swap), then drain, callbacks, destroy',
                 wit=['a dequeue saw an empty queue', 'one thread dequeued two nodes concurrently with the enqueuers',
-                     'a dummy node was retired through call_rcu'], extra={'object_bits': 10})
+                     'a dummy node was retired through call_rcu'], extra=EX)
     obs += conc('lfq_2threads', 'c12_lfq.c', ['t1', 't2'], R + 1, cflags=['-DSCEN=2'], unwind=3,
                 desc='rculfqueue: 2 threads each enqueue+dequeue(+enqueue): dequeue of the last node forces the dummy swap under contention',
-                wit=["thread 1 dequeued the other thread's node", 'a dummy node was retired through call_rcu'])
+                wit=["thread 1 dequeued the other thread's node", 'a dummy node was retired through call_rcu'], extra=EX)
     for B in ((1,) if q else (1, 2)):
         obs += conc('lfq_2threads_tso%d' % B, 'c12_lfq.c', ['t1', 't2'], R, cflags=['-DSCEN=2'], unwind=3, tso=B,
-                    desc='lfq_2threads under x86-TSO depth %d' % B)
+                    desc='lfq_2threads under x86-TSO depth %d' % B, extra=EX)
     return obs
 
 
 EXPLANATION = 'C12: RCU lock-free queue'
 OUTSIDE = '4 threads; node re-enqueue after a grace period; the real call_rcu (C03) - a harness call_rcu defers callbacks to the end of the run'
 ASSUMPTIONS = ['queue_call_rcu = harness stub honouring the call_rcu contract (callback runs once, after all reader sections of the run ended)',
-               'allocation never fails (make_dummy asserts on it)']
+               'malloc/free of dummy nodes backed by a typed static pool with poisoning and single-free check (allocation never fails)']
 LEVEL_TEXT = ('Bounded model checking of the real cds_lfq enqueue/dequeue/init/destroy (incl. make_dummy, enqueue_dummy, rcu_free_dummy, free_dummy_cb) over all '
               'interleavings within R rounds of 2-3 threads, SC and x86-TSO; oracle: FIFO bad patterns, conservation, NULL-only-if-empty, no dummy leak, '
-              'destroy iff empty, every heap access checked against freed objects.')
+              'destroy iff empty, dummy pool: freed entries poisoned, double free / wild dereference reported.')
 LEVEL_NOTE = 'Trusted: clang-14 lowering, irseq translator, asm table, TSO model, CBMC heap model + MiniSat; bounds in evidence.'
